@@ -1063,6 +1063,7 @@ def spec_read(text):
             inv.append(f"surface number {t0} is not a positive integer")
         try:
             sd = spec.parse_surface(card)
+            sd["computed"] = any(re.match(r"^(\d*(I|ILOG|LOG)|[+-]?[\d.]+(?:[EeDd]?[+-]?\d+)?M)$", t) for t in toks[1:])
             if sd["mnemonic"] not in _surf_types():
                 raise ValueError("mnemonic")
             if any(not hasattr(x, "numerator") for x in sd["constants"]):
@@ -1151,8 +1152,10 @@ def _tup(x):
     return tuple(_tup(y) for y in x) if isinstance(x, list) else x
 
 
-def _close(fr, hexs):
-    """exact rational of the independent reader vs the float MontePy holds (sent as float.hex)"""
+def _close(fr, hexs, abs_tol=0.0):
+    """exact rational of the independent reader vs the float MontePy holds (sent as float.hex).
+    abs_tol: absolute slack for values COMPUTED by a shortcut (nI, nILOG, xM) in binary64 from operands of much larger
+    magnitude (cancellation: a + (b-a)/2 between +-6.3e7 is only exact to a few ulp of 6.3e7); 0 for literal tokens"""
     import math
     import spec
     try:
@@ -1165,7 +1168,7 @@ def _close(fr, hexs):
         return False
     if math.isinf(a) or math.isinf(b) or math.isnan(b):
         return True
-    return spec.close(a, b)
+    return spec.close(a, b) or abs(a - b) <= abs_tol
 
 
 def _fs(x):
@@ -1238,7 +1241,15 @@ def misrepresentations(sp, summ):
                 continue
             if a["mnemonic"] != str(b["type"]).upper():
                 diffs.append(("surface type", a["number"], a["mnemonic"], b["type"]))
-            if len(a["constants"]) != len(b["constants"]) or not all(_close(x, y) for x, y in zip(a["constants"], b["constants"])):
+            tol = 0.0
+            if a.get("computed"):
+                # the card holds an interpolate / multiply shortcut: its generated values carry the rounding of the
+                # operands they are computed from
+                try:
+                    tol = 1e-13 * max([abs(float(x)) for x in a["constants"]] or [0.0])
+                except OverflowError:
+                    tol = 0.0
+            if len(a["constants"]) != len(b["constants"]) or not all(_close(x, y, tol) for x, y in zip(a["constants"], b["constants"])):
                 diffs.append(("surface constants", a["number"], [_fs(x) for x in a["constants"]], b["constants"]))
             if (a["modifier"] == "*") != b["reflecting"] or (a["modifier"] == "+") != b["white"]:
                 diffs.append(("surface boundary", a["number"], a["modifier"], (b["reflecting"], b["white"])))
